@@ -14,6 +14,9 @@ func init() {
 var allocated int64
 
 func Alloc(size int) ([]byte, error) {
+	if err := verifFailAlloc(size); err != nil {
+		return nil, err
+	}
 	atomic.AddInt64(&allocated, int64(size))
 	return make([]byte, size), nil
 }
